@@ -134,3 +134,33 @@ void h_schedule(void) { init_any(); VASSUME(PRE()); ghost_t o = G; wsd_work_stea
   VASSERT(POST_schedule(o, fb), "H: C10 schedule() never puts a newly runnable fiber in front of a fiber already waiting in the queue being drained"); VCANARY("schedule can return"); }
 void h_next(void) { init_any(); VASSUME(PRE()); ghost_t o = G; wsd_work_stealing_deque_t* fb = S.schedule_from; fiber_t* r = fiber_scheduler_next((fiber_scheduler_t*)&S);
   VASSERT(POST_next(o, fb, r), "H: C10 every fiber next() hands out other than X brings X's turn strictly closer"); VCANARY("next can return"); }
+/* ---- base case: fiber_scheduler_wsd_init / fiber_scheduler_init establish SHAPE (two DISTINCT deques, schedule_from and store_to one each) for
+ * every kernel thread, and publish exactly those deques, in order, in the table the thieves walk (C02 load_balance).  Deque creation by contract
+ * (a fresh empty deque, or NULL). ---- */
+static wsd_work_stealing_deque_t DQS[4]; static int dq_made, dq_destroyed, dq_fail;
+wsd_work_stealing_deque_t* wsd_work_stealing_deque_create(void) { if (dq_fail && verif_bool()) return 0; VASSUME(dq_made < 4); return &DQS[dq_made++]; }
+void wsd_work_stealing_deque_destroy(wsd_work_stealing_deque_t* d) { if (d) dq_destroyed++; }
+void h_init(void) {
+  static fiber_scheduler_wsd_t X; memset(&X, (int)verif_u64(), sizeof(X)); size_t id = (size_t)verif_u64();
+  dq_made = dq_destroyed = 0; dq_fail = 1;
+  int r = fiber_scheduler_wsd_init(&X, id);
+  if (r) VASSERT(X.queue_one == &DQS[0] && X.queue_two == &DQS[1] && X.schedule_from == X.queue_one && X.store_to == X.queue_two && X.id == id && dq_destroyed == 0,
+                 "H: C10 init: two distinct deques; one is drained (schedule_from), newly runnable fibers go to the other (store_to); whatever the memory held");
+  else VASSERT(dq_destroyed == dq_made, "H: C10 a failed init destroys the deques it created");
+  VCANARY("wsd_init can return");
+}
+void h_init_all(void) {
+  dq_made = dq_destroyed = 0; dq_fail = 0; fiber_schedulers = 0; fiber_scheduler_thread_queues = 0;
+  int r = fiber_scheduler_init(2);
+  VASSERT(r == 1 && fiber_scheduler_num_threads == 2 && fiber_schedulers != 0 && fiber_scheduler_thread_queues != 0, "H: C10 init_all: two schedulers");
+  for (int i = 0; i < 2; i++) {
+    fiber_scheduler_wsd_t* s = (fiber_scheduler_wsd_t*)fiber_scheduler_for_thread((size_t)i);
+    VASSERT(s == &fiber_schedulers[i] && s->id == (size_t)i && s->queue_one != s->queue_two && s->schedule_from == s->queue_one && s->store_to == s->queue_two,
+            "H: C10 init_all: every kernel thread gets its own scheduler with two distinct deques");
+    VASSERT(fiber_scheduler_thread_queues[2 * i] == s->queue_one && fiber_scheduler_thread_queues[2 * i + 1] == s->queue_two,
+            "H: C10 init_all: the table the thieves walk lists exactly each thread's two deques, at 2i and 2i+1");
+  }
+  VASSERT(fiber_schedulers[0].queue_one != fiber_schedulers[1].queue_one && fiber_schedulers[0].queue_one != fiber_schedulers[1].queue_two &&
+          fiber_schedulers[0].queue_two != fiber_schedulers[1].queue_one && fiber_schedulers[0].queue_two != fiber_schedulers[1].queue_two, "H: C10 init_all: no deque is shared between kernel threads");
+  VCANARY("scheduler_init can return");
+}
